@@ -1122,6 +1122,7 @@ var generators = []struct {
 	{"address", []string{"Address"}, genAddress},
 	{"migration", []string{"Migration"}, genMigration},
 	{"slip10", []string{"Slip10", "Secp256k1"}, genSlip10},
+	{"secp256k1code", []string{"Secp256k1Code"}, genSecp256k1Code},
 	{"ed", []string{"Ed"}, genEd},
 	{"deps", []string{"Deps"}, genDeps},
 }
